@@ -60,6 +60,14 @@ def deep_queue(pol, cap=3):
     return _i("deep_%s%d" % (pol, cap), progs, {i: 0 for i in range(1, cap + 3)}, cap=cap, pol=pol, cb_reads=False)
 
 
+def mw_dispatch(pol="block"):
+    """a middleware uses the dispatcher it is handed: its before_dispatch hook dispatches action 9 while
+    action 1 is being processed (the queue has room, as C02 requires)"""
+    progs = [{"c1": [D(1, "impl"), D(2, "trait")], "c2": [S("add_sub", "s1"), D(3, "store"), O("stop"), O("get_state"), O("metrics")]}]
+    return _i("mwdisp_%s" % pol, progs, {1: 0, 2: 1, 3: 1, 9: 1}, cap=4, pol=pol, mws=("m1",), mw_disp={"m1": {0: 9}},
+              subs={"s1": {"kind": "direct"}})
+
+
 def subs_direct(tier):
     rs = {"r1": {0: red("D"), 1: red("K", eff("task"))}}       # Keep with an effect must still not notify
     progs = [{"c1": [S("add_sub", "s1"), S("add_sub", "s2"), D(1), D(2), D(3)] + STOP,
@@ -350,10 +358,11 @@ def table(pid, tier):
         T = dict(mc=[(a, inv, ["C01_FinalAfterStop"])] + ([] if q else [(b, inv, ["C01_FinalAfterStop"])]),
                  gen=[(a, 1500 if q else 20000)], free=[(b, 150 if q else 1500)])
     elif pid == "C02":
-        insts = [order(tier, p) for p in ("block", "oldest", "latest")] + [deep_queue("oldest"), deep_queue("latest")]
+        insts = [order(tier, p) for p in ("block", "oldest", "latest")] + [deep_queue("oldest"), deep_queue("latest"),
+                                                                          mw_dispatch("block")]
         inv = ["C02_Order", "C02_ReduceOrder", "C11_Followup"]
-        T = dict(mc=[(i, inv, []) for i in insts], gen=[(i, 500 if q else 10000) for i in insts],
-                 free=[(i, 50 if q else 600) for i in insts])
+        T = dict(mc=[(i, inv, []) for i in insts], gen=[(i, 350 if q else 10000) for i in insts],
+                 free=[(i, 40 if q else 600) for i in insts])
     elif pid == "C03":
         a, b = subs_direct(tier), subs_unsub(tier)
         inv = ["C03_OnlyDispatch", "C03_EveryDispatch", "C03_StateAndOrder", "C03_Stream", "C07_DirectOnReducer",
